@@ -22,8 +22,8 @@ FUNCTIONS = [
     "nessai.samplers.importancesampler.ImportanceNestedSampler.draw_posterior_samples",
 ]
 BOUNDS = {
-    "quick": dict(n_samples="1..4 (rejection), 1..4 (multinomial, explicit size), 1..3 (default size int(ESS))", ess_bounds="n<=5", ins_method="n = 2..3 per set, rejection sampling, use_final_samples x final samples present/absent"),
-    "thorough": dict(n_samples="1..6 (rejection), 1..6 (multinomial, explicit size), 1..3 (default size int(ESS))", ess_bounds="n<=7", ins_method="n = 2..4 per set, rejection sampling, use_final_samples x final samples present/absent"),
+    "quick": dict(n_samples="1..4 (rejection), 1..4 (multinomial, explicit size), 1..3 (default size int(ESS))", ess_bounds="n<=5", ins_method="n = 2..3 per set (rejection), n = 2, requested size 1..3 (multinomial); use_final_samples x final samples present/absent"),
+    "thorough": dict(n_samples="1..6 (rejection), 1..6 (multinomial, explicit size), 1..3 (default size int(ESS))", ess_bounds="n<=7", ins_method="n = 2..4 per set (rejection), n = 2..3, requested size 1..3 (multinomial); use_final_samples x final samples present/absent"),
 }
 SCOPE = "Weights w_i = exp(log_w_i) are symbolic non-negative reals (zeros = -inf log-weights allowed, not all zero, not normalised)."
 ASSUMPTIONS = [
@@ -356,6 +356,69 @@ def make_ins_method(n, use_final, has_final):
     return body
 
 
+def make_ins_method_multinomial(n, use_final, has_final):
+    """Same pairing through the multinomial method: requested size handed on, probabilities from the selected set's weights."""
+    def body(ctx):
+        from types import SimpleNamespace
+        from nessai.samplers.importancesampler import ImportanceNestedSampler
+        mut = getattr(ctx, "mutant", None)
+        snp = _snp(ctx)
+        dt = object if ctx.mode == "sym" else float
+        lw_t = [ctx.logval(f"w{i}", positive=True) for i in range(n)]
+        lw_f = [ctx.logval(f"v{i}", positive=True) for i in range(n)]
+        train, final = _samples(ctx, n), _samples(ctx, n)
+        final["tag"] += 100
+        req = 1 + ctx.choice("size", 3)
+        fake = SimpleNamespace(
+            final_samples_unit=final if has_final else None,
+            final_samples=final if has_final else None,
+            final_state=SimpleNamespace(log_posterior_weights=np.array(lw_f, dtype=dt)) if has_final else None,
+            samples=train,
+            state=SimpleNamespace(log_posterior_weights=np.array(lw_t, dtype=dt)),
+        )
+        recs = []
+
+        def choice(a, size=None, replace=True, p=None):
+            a_n = int(a) if isinstance(a, (int, np.integer)) else len(a)
+            recs.append(dict(a_n=a_n, size=size, p=p))
+            return np.array([j % a_n for j in range(int(size))], dtype=int)
+        if ctx.mode == "sym":
+            _symnp.symrandom.reset()
+            _symnp.symrandom.handlers["choice"] = choice
+            try:
+                out = ImportanceNestedSampler.draw_posterior_samples(fake, sampling_method="multinomial_resampling", n=req, use_final_samples=use_final)
+            finally:
+                _symnp.symrandom.reset()
+        else:
+            real = np.random.choice
+            np.random.choice = choice
+            try:
+                out = ImportanceNestedSampler.draw_posterior_samples(fake, sampling_method="multinomial_resampling", n=req, use_final_samples=use_final)
+            finally:
+                np.random.choice = real
+        sel_final = use_final and has_final
+        if mut == "swap":
+            sel_final = not sel_final
+        off = 100 if sel_final else 0
+        lw = lw_f if sel_final else lw_t
+        tags = [int(t) for t in out["tag"]]
+        ctx.prove(len(tags) == req, "exactly the requested number of draws")
+        ctx.prove(all(off <= t < off + n for t in tags), "posterior samples are elements of the selected sample set (independent final samples when requested and present, training samples otherwise)")
+        ctx.prove(len(recs) == 1 and recs[0]["a_n"] == n and len(recs[0]["p"]) == n, "one probability per sample of the selected set")
+        w = [snp.exp(x) for x in lw]
+        tot = w[0]
+        for x in w[1:]:
+            tot = tot + x
+        pr = recs[0]["p"]
+        for i in range(n):
+            if ctx.mode == "sym":
+                ctx.prove(pr[i] * tot == w[i], "selection probability of sample i of the selected set is w_i / sum w with the weights of the same set")
+            else:
+                ctx.prove_eq(pr[i] * tot, w[i], "selection probability of sample i of the selected set is w_i / sum w with the weights of the same set")
+        ctx.cover("end")
+    return body
+
+
 def units(tier):
     us = []
     nl = dict(exp_axioms="signs", fresh=True, timeout_ms=60000)
@@ -372,6 +435,10 @@ def units(tier):
     for n in ([2, 3] if q else [2, 3, 4]):
         for use_final, has_final in ((True, True), (True, False), (False, True)):
             us.append(Unit(f"ins_method[n={n},use_final={use_final},has_final={has_final}]", make_ins_method(n, use_final, has_final), MODS + ["nessai.samplers.importancesampler"], nl,
+                           expect_cover=["end"], mutants=["swap"] if n == 2 else [], twin_runs=20, witness_every=5, nproc=1, extra_patches=stub))
+    for n in ([2] if q else [2, 3]):
+        for use_final, has_final in ((True, True), (True, False), (False, True)):
+            us.append(Unit(f"ins_method_multinomial[n={n},use_final={use_final},has_final={has_final}]", make_ins_method_multinomial(n, use_final, has_final), MODS + ["nessai.samplers.importancesampler"], nl,
                            expect_cover=["end"], mutants=["swap"] if n == 2 else [], twin_runs=20, witness_every=5, nproc=1, extra_patches=stub))
     us.append(Unit("ess[empty]", make_empty_ess(), MODS, nl, expect_cover=["end"], twin_runs=1, nproc=1))
     return us
